@@ -25,7 +25,7 @@ func genCase(t *rapid.T) Case {
 	sc := world.Script{K: k}
 	sc.MaxAsync = rapid.SampledFrom([]int{0, 0, 1, 2, k, max(1, k-1)}).Draw(t, "maxasync")
 	n := rapid.IntRange(3, 40).Draw(t, "nsteps")
-	ops := []string{"publish", "publish", "announce", "announce", "announce", "sync", "hold", "open", "failannounce"}
+	ops := []string{"publish", "publish", "announce", "announce", "announce", "sync", "hold", "open", "failannounce", "badannounce"}
 	for i := 0; i < n; i++ {
 		st := world.Step{Op: rapid.SampledFrom(ops).Draw(t, "op"), P: rapid.IntRange(0, k-1).Draw(t, "p"), N: rapid.IntRange(1, 3).Draw(t, "n")}
 		sc.Steps = append(sc.Steps, st)
@@ -63,7 +63,7 @@ func runCase(t *testing.T) func(Case) pbt.Result {
 			for i, st := range c.Script.Steps {
 				// classification before running
 				switch st.Op {
-				case "announce", "failannounce":
+				case "announce", "failannounce", "badannounce":
 					if e.Pubs[st.P].InFlight() > 0 {
 						kinds["announce-while-sync-held"]++
 					}
@@ -238,7 +238,7 @@ func render(c Case) string {
 
 func TestC08_Scripts(t *testing.T) {
 	pbt.Run(t, pbt.Config{Prop: "C08", Unit: "TestC08_Scripts", TrackCurrent: true,
-		Rule: "scripts of 3..40 steps over 1..3 publishers and one real subscriber (MaxAsyncConcurrency unlimited, 1, 2, k-1, k): publish 1..3 ads, announce the current head (in chain order), announce a head whose first block request fails, explicit sync, hold / open a publisher's gate (block requests park), so that announcement bursts arrive while a sync of the same publisher is held; after every step: at most one block request in flight per publisher, concurrently busy publishers <= the configured maximum; at exact quiescence with all gates open: every publisher's latest-sync is at or after its last announced head or an error notification for that head was delivered; every advertisement up to latest-sync was reported exactly once and none beyond; hook calls form whole newest-to-oldest runs; success notifications are in order with counts that add up; never more syncs handled than announcements + explicit syncs. Non-trivial: an announcement arrived while a sync of the same publisher was held, an explicit sync overlapped another sync, or the semaphore was saturated; distinct by case.",
+		Rule: "scripts of 3..40 steps over 1..3 publishers and one real subscriber (MaxAsyncConcurrency unlimited, 1, 2, k-1, k): publish 1..3 ads, announce the current head (in chain order), announce a head whose first block request fails, announce the head with sender information no sync can use (only a non-HTTP address), explicit sync, hold / open a publisher's gate (block requests park), so that announcement bursts arrive while a sync of the same publisher is held; after every step: at most one block request in flight per publisher, concurrently busy publishers <= the configured maximum; at exact quiescence with all gates open: every publisher's latest-sync is at or after its last announced head or an error notification for that head was delivered; every advertisement up to latest-sync was reported exactly once and none beyond; hook calls form whole newest-to-oldest runs; success notifications are in order with counts that add up; never more syncs handled than announcements + explicit syncs. Non-trivial: an announcement arrived while a sync of the same publisher was held, an explicit sync overlapped another sync, or the semaphore was saturated; distinct by case.",
 		Assumptions: []string{"announcements per publisher follow chain order (documented caller obligation); arrival timing varies", "while a gate-held sync coexists with goroutines waiting on a library mutex the harness settles heuristically (1 ms of stable activity); only 'nothing bad has happened' is asserted then, every 'has happened' assertion waits for exact quiescence"},
 	}, genCase, runCase(t))
 }
